@@ -159,8 +159,9 @@ func (c *tracingHTTP2Conn) handleFrame(frame http2.Frame, isRequest bool) {
 		case isRequest:
 			// request trailers
 			stream.builder.trace.Request.Trailer = makeHeaders(frame)
-		default:
-			// response trailers
+		case stream.builder.trace.Response != nil:
+			// response trailers (there is no response to attach them to
+			// when the stream carries no test name and so is not traced)
 			stream.builder.trace.Response.Trailer = makeHeaders(frame)
 		}
 		if frame.StreamEnded() {
